@@ -6,6 +6,8 @@ import (
 	"fmt"
 	"sort"
 	"strings"
+	"sync"
+	"sync/atomic"
 
 	openfgav1 "github.com/openfga/api/proto/openfga/v1"
 	"google.golang.org/protobuf/types/known/structpb"
@@ -141,6 +143,8 @@ type runner struct {
 	ts    *typesystem.TypeSystem
 	alpha [nKinds][]val
 	tier  string
+
+	sigSeen sync.Map // signature -> *atomic.Int64
 }
 
 func (rn *runner) ctxStruct(c *cond, idx []int, asNil bool) (*structpb.Struct, map[string]any) {
@@ -295,6 +299,11 @@ func (rn *runner) runCase(c *cond, ec *condition.EvaluableCondition, req, sto []
 	}
 	if sig == "" {
 		return ""
+	}
+	// Report.Violate keeps two examples per signature: build the (costly) description only for the first few
+	if n, _ := rn.sigSeen.LoadOrStore(sig, new(atomic.Int64)); n.(*atomic.Int64).Add(1) > 4 {
+		rn.r.Violate(sig, "", nil)
+		return sig
 	}
 	cs := Case{Tier: rn.tier, Cond: c.Name, Expr: c.E.cel(), Req: req, Stored: sto, ReqNil: reqNil, StoredNil: stoNil,
 		ReqJSON: reqShow, StoJSON: stoShow, Expected: exp.String() + " " + strings.Join(why, ","), Got: got.String()}
